@@ -177,8 +177,20 @@ def pick_vals(rng, pool, repeat_p=0.3):
     return rng.sample(pool, k)
 
 
+def wrapping_duration(rng):
+    """a duration far beyond the field whose millisecond count is small modulo 2^64 (or modulo 2^32): k*2^w + m ms"""
+    w = rng.choice([64, 64, 64, 32])
+    m = rng.choice([0, 7, 384, rng.randint(0, IMAX)])
+    k = rng.randint(1, 999) if w == 64 else rng.randint(1, 2 ** 31)
+    total = k * 2 ** w + m
+    return (total // 1000, (total % 1000) * 1000000 + rng.choice([0, 0, 999999]))
+
+
 def durations(rng, invalid):
-    return VALID_DUR + (INVALID_DUR if invalid else [])
+    if not invalid:
+        return list(VALID_DUR)
+    # the fixed boundary values plus values that only a wrapping (not saturating) conversion would accept
+    return VALID_DUR + INVALID_DUR + [(U64 // 1000 + 1, 0), (1 << 61, 7000000)] + [wrapping_duration(rng) for _ in range(3)]
 
 
 def client_setters(rng, invalid=False, n=None, force=None):
